@@ -21,7 +21,7 @@ using M::Fields;
 
 static const char* EXT[] = {"", ".gz", ".xz"};
 
-enum Oracle { O_C01 = 1, O_C02 = 2, O_C04 = 4, O_C10 = 8, O_C11 = 16, O_C12 = 32, O_C13 = 64, O_C17 = 128 };
+enum Oracle { O_C01 = 1, O_C02 = 2, O_C04 = 4, O_C10 = 8, O_C11 = 16, O_C12 = 32, O_C13 = 64, O_C17 = 128, O_C14 = 256 };
 
 struct Profile {
   const char* name;
@@ -36,6 +36,7 @@ struct Profile {
   unsigned pres_fixed = 0;        // 0 = per-case choice, else fixed presence (out of 8)
   unsigned ops_per_size = 1;
   bool big_strings = false;
+  bool force_compression = false;
 };
 
 // ---- reference exporter model ----------------------------------------------------------------
@@ -233,7 +234,7 @@ static void hist_case(Case& cs, const Profile& pf) {
   RefExporter ref;
   unsigned nsets = (unsigned)c.range(pf.min_sets, pf.max_sets);
   for (unsigned i = 0; i < nsets; i++) ref.sets.push_back(gen::gen_bp(c, bo));
-  int comp = (int)c.range(0, 2);
+  int comp = pf.force_compression ? 1 + (int)c.range(0, 1) : (int)c.range(0, 2);
   int kind = (int)c.range(0, 1);
   unsigned nops = (unsigned)c.range(1, 4 + cs.size * pf.ops_per_size);
   trace << "comp=" << comp << " kind=" << (kind ? "fd" : "name") << " pres=" << ro.pres << "/8 " << describe_sets(ref.sets) << "\n";
@@ -468,7 +469,7 @@ static void hist_case(Case& cs, const Profile& pf) {
     if (o.kind == 0) { struct stat sb; if (::stat(o.part.c_str(), &sb) == 0) cx.fail(O_C13, "c13.part_left", where + ": .part file still exists after the output was closed"); }
     if (o.comp != 0 && raw.empty() && o.kind == 1 && o.blocks.empty()) { /* descriptor never written */ }
     if (!decompress(o.comp, raw, plain, err)) {
-      cx.fail(O_C02 | O_C01 | O_C13, "c02.compressed_stream", where + ": " + err + "\n" + trace.str());
+      cx.fail(O_C02 | O_C01 | O_C13 | O_C14, "c02.compressed_stream", where + ": " + err + "\n" + trace.str());
       continue;
     }
     total_bytes += plain.size();
@@ -614,7 +615,8 @@ static void hist_case(Case& cs, const Profile& pf) {
 
   bool rich = nondefault_hints || nondefault_tps || sets_used.size() > 1 || nblocks >= 2 || n_boundaryish > 0 || n_rrlists > 0;
   unsigned o = pf.oracles;
-  if (o & O_C13) cs.nontrivial = had_rotation_with_blocks || had_nonexport_rotation_nonempty || had_consec_rot;
+  if (o & O_C14) cs.nontrivial = nblocks >= 1 && comp != 0;
+  else if (o & O_C13) cs.nontrivial = had_rotation_with_blocks || had_nonexport_rotation_nonempty || had_consec_rot;
   else if (o & O_C12) cs.nontrivial = (had_buffer_flush && __builtin_popcount(kinds_used) >= 2) || had_switch_flush;
   else if (o & O_C04) {
     bool clear_and_supplied = false;
@@ -635,11 +637,12 @@ static Profile P_C10() { Profile p = P_C02(); p.name = "c10"; p.oracles = O_C10;
 static Profile P_C11() { Profile p; p.name = "c11"; p.oracles = O_C11; p.small_blocks = true; p.hint_modes = false; p.w_write = 1; p.ops_per_size = 2; return p; }
 static Profile P_C12() { Profile p; p.name = "c12"; p.oracles = O_C12; p.small_blocks = true; p.min_sets = 2; p.w_setactive = 3; p.w_counters = 2; p.w_aec = 6; p.w_mm = 5; p.w_write = 2; p.ops_per_size = 2; p.any_tps = false; return p; }
 static Profile P_C13() { Profile p; p.name = "c13"; p.oracles = O_C13; p.w_rotate = 5; p.w_addbp = 2; p.w_setactive = 2; p.w_ext = 1; p.small_blocks = true; return p; }
+static Profile P_C14() { Profile p = P_C02(); p.name = "c14"; p.oracles = O_C14 | O_C01 | O_C02 | O_C10; p.big_strings = true; p.force_compression = true; p.w_rotate = 3; return p; }
 static Profile P_C17() { Profile p; p.name = "c17"; p.oracles = O_C17 | O_C01; p.hint_modes = false; p.w_mm = 6; p.w_aec = 1; p.pres_fixed = 5; return p; }
 
 int main(int argc, char** argv) {
   Registry r;
-  static Profile ps[] = {P_C01(), P_C01BIG(), P_C02(), P_C04(), P_C10(), P_C11(), P_C12(), P_C13(), P_C17()};
+  static Profile ps[] = {P_C01(), P_C01BIG(), P_C02(), P_C04(), P_C10(), P_C11(), P_C12(), P_C13(), P_C14(), P_C17()};
   for (auto& p : ps) { const Profile* pp = &p; r.add(std::string("hist_") + p.name, [pp](Case& cs) { hist_case(cs, *pp); }); }
   return harness_main(argc, argv, r);
 }
